@@ -66,6 +66,7 @@ func (a ammW) SwapInAmtGivenOut(ctx sdk.Context, poolId uint64, o ammtypes.Oracl
 // estFailOnce: at most one estimate call fails, the failAt-th (a symbolic index; 0 = none): linear instead of
 // exponential in the number of estimate calls, for handlers that swallow the error and carry on.
 var (
+	noUnpaid         bool // the explicit positions carry no unpaid borrow interest (fewer settlement branches)
 	settledThisBlock bool // the explicit position's interest and funding were last settled in the current block
 	estNoFail        bool
 	estFailOnce      bool
@@ -270,6 +271,9 @@ func setupPosColl(pos perptypes.Position, collAsset string) (*state, perptypes.M
 	vrf.Assume(liab.IsPositive())
 	vrf.Assume(coll.IsPositive())
 	unpaid := nonneg("unpaidInterest")
+	if noUnpaid {
+		vrf.Assume(unpaid.IsZero())
+	}
 	liabAsset, custAsset := usdc, atom
 	if pos == perptypes.Position_SHORT {
 		liabAsset, custAsset = atom, usdc
